@@ -103,6 +103,8 @@ structure Inv (s : State) : Prop where
   off_le : s.offFile ≤ s.wal.length
   /-- (iii) entries between the newest file's offset and the offset file have no applications -/
   off_gap : headPos s.files ≤ s.offFile → upTo s.wal s.offFile = upTo s.wal (headPos s.files)
+  /-- (v) the persisted offset is looked up under the source it is stored under -/
+  src_ok : s.lookSrc = s.tagSrc
   vol : s.up = true → Vol s
 
 /-! ### one lemma per event -/
@@ -139,7 +141,7 @@ theorem inv_walAppend {s s' : State} {e : Entry} (h : Inv s) (hs : step s (.walA
     simp only [Bool.and_eq_true, List.all_eq_true, decide_eq_true_eq] at hg
     cases hs
     have hhp := headPos_le h
-    refine { wf := ?_, acked_in := ?_, files_ok := ?_, files_sorted := h.files_sorted, off_le := ?_,
+    refine { src_ok := h.src_ok, wf := ?_, acked_in := ?_, files_ok := ?_, files_sorted := h.files_sorted, off_le := ?_,
              off_gap := ?_, vol := ?_ }
     · show (s.wal ++ [e]).Pairwise _
       rw [List.pairwise_append]
@@ -206,8 +208,10 @@ theorem memPos_le_rd1 {s : State} (hv : Vol s) : s.memPos ≤ s.rd + 1 := by
 
 /-- durable part of the invariant when wal, files and offFile are unchanged -/
 theorem Inv.of_durable_eq {s s' : State} (h : Inv s) (h1 : s'.wal = s.wal) (h2 : s'.files = s.files)
-    (h3 : s'.offFile = s.offFile) (h4 : s'.acked = s.acked) (hv : s'.up = true → Vol s') : Inv s' := by
-  refine { wf := ?_, acked_in := ?_, files_ok := ?_, files_sorted := ?_, off_le := ?_, off_gap := ?_, vol := hv }
+    (h3 : s'.offFile = s.offFile) (h4 : s'.acked = s.acked) (h5 : s'.lookSrc = s.lookSrc)
+    (h6 : s'.tagSrc = s.tagSrc) (hv : s'.up = true → Vol s') : Inv s' := by
+  refine { wf := ?_, acked_in := ?_, files_ok := ?_, files_sorted := ?_, off_le := ?_, off_gap := ?_,
+           src_ok := by rw [h5, h6]; exact h.src_ok, vol := hv }
   · rw [h1]; exact h.wf
   · rw [h1, h4]; exact h.acked_in
   · rw [h1, h2]; exact h.files_ok
@@ -221,7 +225,7 @@ theorem inv_walAck {s s' : State} {o : Nat} (h : Inv s) (hs : step s (.walAck o)
   · rename_i hg
     simp only [Bool.and_eq_true, List.any_eq_true, beq_iff_eq] at hg
     cases hs
-    refine { wf := h.wf, acked_in := ?_, files_ok := h.files_ok, files_sorted := h.files_sorted,
+    refine { src_ok := h.src_ok, wf := h.wf, acked_in := ?_, files_ok := h.files_ok, files_sorted := h.files_sorted,
              off_le := h.off_le, off_gap := h.off_gap, vol := ?_ }
     · intro o' ho'
       rcases List.mem_cons.mp ho' with rfl | hr
@@ -253,7 +257,7 @@ theorem inv_apply {s s' : State} {o : Nat} (h : Inv s) (hs : step s (.apply o) =
       split at hs
       · rename_i hk
         cases hs
-        refine Inv.of_durable_eq h ?_ ?_ ?_ ?_ ?_ <;> try rfl
+        refine Inv.of_durable_eq h ?_ ?_ ?_ ?_ ?_ ?_ ?_ <;> try rfl
         intro _
         refine { rd_le := ?_, cur_apps := hv.cur_apps, cur_le := ?_, mem_le := ?_, off_mem := ?_,
                  view := ?_, pend0 := ?_, pendS := ?_, phase := ?_ }
@@ -271,7 +275,7 @@ theorem inv_apply {s s' : State} {o : Nat} (h : Inv s) (hs : step s (.apply o) =
           unfold PhaseOK; simp only [hph]; exact hcur
       · rename_i hk
         cases hs
-        refine Inv.of_durable_eq h ?_ ?_ ?_ ?_ ?_ <;> try rfl
+        refine Inv.of_durable_eq h ?_ ?_ ?_ ?_ ?_ ?_ ?_ <;> try rfl
         intro _
         refine { rd_le := hv.rd_le, cur_apps := hv.cur_apps, cur_le := ?_, mem_le := ?_, off_mem := ?_,
                  view := ?_, pend0 := ?_, pendS := ?_, phase := ?_ }
@@ -308,7 +312,7 @@ theorem inv_skip {s s' : State} {o : Nat} (h : Inv s) (hs : step s (.skip o) = s
       have hview := hv.view
       rw [partialApps_pend0 hp0] at hview
       cases hs
-      refine Inv.of_durable_eq h ?_ ?_ ?_ ?_ ?_ <;> try rfl
+      refine Inv.of_durable_eq h ?_ ?_ ?_ ?_ ?_ ?_ ?_ <;> try rfl
       intro _
       refine { rd_le := ?_, cur_apps := hv.cur_apps, cur_le := ?_, mem_le := ?_, off_mem := ?_,
                view := ?_, pend0 := ?_, pendS := ?_, phase := ?_ }
@@ -341,7 +345,7 @@ theorem inv_pass {s s' : State} (h : Inv s) (hs : step s .pass = some s') : Inv 
       rw [partialApps_pend0 hp0] at hview
       obtain ⟨hm, hu⟩ := hv.pend0 hp0
       cases hs
-      refine Inv.of_durable_eq h ?_ ?_ ?_ ?_ ?_ <;> try rfl
+      refine Inv.of_durable_eq h ?_ ?_ ?_ ?_ ?_ ?_ ?_ <;> try rfl
       intro _
       refine { rd_le := ?_, cur_apps := hv.cur_apps, cur_le := hv.cur_le, mem_le := hv.mem_le, off_mem := hv.off_mem,
                view := ?_, pend0 := ?_, pendS := ?_, phase := hv.phase }
@@ -369,7 +373,7 @@ theorem inv_flushBegin {s s' : State} (h : Inv s) (ha : s.pend = 0) (hs : step s
     have hv := h.vol hup
     have hcur := phaseOK_idle hph hv.phase
     cases hs
-    refine Inv.of_durable_eq h ?_ ?_ ?_ ?_ ?_ <;> try rfl
+    refine Inv.of_durable_eq h ?_ ?_ ?_ ?_ ?_ ?_ ?_ <;> try rfl
     intro _
     exact ⟨hv.rd_le, hv.cur_apps, hv.cur_le, hv.mem_le, hv.off_mem, hv.view, hv.pend0, hv.pendS, ⟨hcur, ha⟩⟩
   · cases hs
@@ -384,7 +388,7 @@ theorem inv_tmpWritten {s s' : State} (h : Inv s) (hs : step s .tmpWritten = som
     have hp := hv.phase
     unfold PhaseOK at hp; rw [hph] at hp
     cases hs
-    refine Inv.of_durable_eq h ?_ ?_ ?_ ?_ ?_ <;> try rfl
+    refine Inv.of_durable_eq h ?_ ?_ ?_ ?_ ?_ ?_ ?_ <;> try rfl
     intro _
     exact ⟨hv.rd_le, hv.cur_apps, hv.cur_le, hv.mem_le, hv.off_mem, hv.view, hv.pend0, hv.pendS,
       ⟨hp.1, hp.2, rfl, rfl⟩⟩
@@ -400,7 +404,7 @@ theorem inv_tmpSynced {s s' : State} (h : Inv s) (hs : step s .tmpSynced = some 
       have hp := hv.phase
       unfold PhaseOK at hp; rw [hph] at hp
       cases hs
-      refine Inv.of_durable_eq h ?_ ?_ ?_ ?_ ?_ <;> try rfl
+      refine Inv.of_durable_eq h ?_ ?_ ?_ ?_ ?_ ?_ ?_ <;> try rfl
       intro _
       exact ⟨hv.rd_le, hv.cur_apps, hv.cur_le, hv.mem_le, hv.off_mem, hv.view, hv.pend0, hv.pendS,
         ⟨hp.1, hp.2.1, hp.2.2.1, hp.2.2.2, rfl⟩⟩
@@ -438,7 +442,7 @@ theorem inv_renamed {s s' : State} (h : Inv s) (hs : step s .renamed = some s') 
       rw [partialApps_pend0 hp0, List.append_nil] at hview
       have hhp := headPos_eq_cur hcur
       cases hs
-      refine { wf := h.wf, acked_in := h.acked_in, files_ok := ?_, files_sorted := ?_, off_le := h.off_le,
+      refine { src_ok := h.src_ok, wf := h.wf, acked_in := h.acked_in, files_ok := ?_, files_sorted := ?_, off_le := h.off_le,
                off_gap := ?_, vol := ?_ }
       · intro g hg
         rcases List.mem_cons.mp hg with rfl | hr
@@ -481,7 +485,7 @@ theorem inv_swapped {s s' : State} (h : Inv s) (hs : step s .swapped = some s') 
         | cons a r => simp [hf] at hhead; simp [hhead]
       obtain ⟨_, _, hfu⟩ := h.files_ok f hfm
       cases hs
-      refine Inv.of_durable_eq h ?_ ?_ ?_ ?_ ?_ <;> try rfl
+      refine Inv.of_durable_eq h ?_ ?_ ?_ ?_ ?_ ?_ ?_ <;> try rfl
       intro _
       refine { rd_le := hv.rd_le, cur_apps := hfu, cur_le := ?_, mem_le := hv.mem_le, off_mem := hv.off_mem,
                view := ?_, pend0 := hv.pend0, pendS := ?_, phase := ?_ }
@@ -511,7 +515,7 @@ theorem inv_offTmpWritten {s s' : State} (h : Inv s) (hs : step s .offTmpWritten
       · exact h0
       · exact absurd hmem (hv.pendS h0).2.1
     cases hs
-    refine Inv.of_durable_eq h ?_ ?_ ?_ ?_ ?_ <;> try rfl
+    refine Inv.of_durable_eq h ?_ ?_ ?_ ?_ ?_ ?_ ?_ <;> try rfl
     intro _
     exact ⟨hv.rd_le, hv.cur_apps, hv.cur_le, hv.mem_le, hv.off_mem, hv.view, hv.pend0, hv.pendS,
       ⟨hcur, hp0, rfl, hmem⟩⟩
@@ -533,7 +537,7 @@ theorem inv_offRenamed {s s' : State} (h : Inv s) (hs : step s .offRenamed = som
       have hhp := headPos_eq_cur hcur
       subst hpm
       cases hs
-      refine { wf := h.wf, acked_in := h.acked_in, files_ok := h.files_ok, files_sorted := h.files_sorted,
+      refine { src_ok := h.src_ok, wf := h.wf, acked_in := h.acked_in, files_ok := h.files_ok, files_sorted := h.files_sorted,
                off_le := ?_, off_gap := ?_, vol := ?_ }
       · show s.memPos ≤ s.wal.length; exact hv.mem_le
       · intro _
@@ -551,7 +555,7 @@ theorem inv_crash {s s' : State} (h : Inv s) (hs : step s .crash = some s') : In
   simp only [step] at hs
   split at hs
   · cases hs
-    refine Inv.of_durable_eq h ?_ ?_ ?_ ?_ ?_ <;> try rfl
+    refine Inv.of_durable_eq h ?_ ?_ ?_ ?_ ?_ ?_ ?_ <;> try rfl
     intro hup
     simp [crashF] at hup
   · cases hs
@@ -574,7 +578,7 @@ theorem inv_oldFileRemoved {s s' : State} {i : Nat} (h : Inv s) (hs : step s (.o
     obtain ⟨a, b, r, hfs, her⟩ := eraseIdx_ge2 h2 hi
     have hsub : (s.files.eraseIdx i).Sublist s.files := List.eraseIdx_sublist _ _
     cases hs
-    refine { wf := h.wf, acked_in := h.acked_in, files_ok := ?_, files_sorted := ?_, off_le := h.off_le,
+    refine { src_ok := h.src_ok, wf := h.wf, acked_in := h.acked_in, files_ok := ?_, files_sorted := ?_, off_le := h.off_le,
              off_gap := ?_, vol := ?_ }
     · intro g hg
       exact h.files_ok g (hsub.subset hg)
@@ -620,9 +624,11 @@ theorem inv_reopenF {s : State} (h : Inv s) : Inv (reopenF s) := by
   have hpick := pickFile_complete hc
   have hstart := startPos_eq hc
   have hhp := headPos_le h
+  have hread : readPos s = max (headPos s.files) s.offFile := by
+    unfold readPos; rw [if_pos h.src_ok]; exact hstart
   unfold reopenF
-  simp only [hpick, hstart]
-  refine Inv.of_durable_eq h ?_ ?_ ?_ ?_ ?_ <;> try rfl
+  simp only [hpick, hstart, hread]
+  refine Inv.of_durable_eq h ?_ ?_ ?_ ?_ ?_ ?_ ?_ <;> try rfl
   intro _
   have hcp : (s.files.head?.getD File.empty).pos = headPos s.files := (headPos_eq_cur rfl).symm
   have hca : (s.files.head?.getD File.empty).apps = upTo s.wal (headPos s.files) := by
@@ -693,7 +699,7 @@ theorem inv_ingestEntry {s : State} {e : Entry} (h : Inv s) (hup : s.up = true) 
   · rename_i hsk
     have hp0 := hpk (Or.inl hsk)
     rw [hp0, List.take_zero, List.append_nil] at hview
-    refine Inv.of_durable_eq h ?_ ?_ ?_ ?_ ?_ <;> try rfl
+    refine Inv.of_durable_eq h ?_ ?_ ?_ ?_ ?_ ?_ ?_ <;> try rfl
     intro _
     refine { rd_le := ?_, cur_apps := hv.cur_apps, cur_le := ?_, mem_le := ?_, off_mem := ?_,
              view := ?_, pend0 := ?_, pendS := ?_, phase := ?_ }
@@ -713,7 +719,7 @@ theorem inv_ingestEntry {s : State} {e : Entry} (h : Inv s) (hup : s.up = true) 
       have hp0 := hpk (Or.inr hk0)
       rw [hp0, List.take_zero, List.append_nil] at hview
       obtain ⟨hm, hu⟩ := hv.pend0 hp0
-      refine Inv.of_durable_eq h ?_ ?_ ?_ ?_ ?_ <;> try rfl
+      refine Inv.of_durable_eq h ?_ ?_ ?_ ?_ ?_ ?_ ?_ <;> try rfl
       intro _
       refine { rd_le := ?_, cur_apps := hv.cur_apps, cur_le := hv.cur_le, mem_le := hv.mem_le,
                off_mem := hv.off_mem, view := ?_, pend0 := ?_, pendS := ?_, phase := ?_ }
@@ -728,7 +734,7 @@ theorem inv_ingestEntry {s : State} {e : Entry} (h : Inv s) (hup : s.up = true) 
       · intro h0; exact absurd h0 (Nat.lt_irrefl 0)
       · show PhaseOK _
         unfold PhaseOK; simp only [hph]; exact hcur
-    · refine Inv.of_durable_eq h ?_ ?_ ?_ ?_ ?_ <;> try rfl
+    · refine Inv.of_durable_eq h ?_ ?_ ?_ ?_ ?_ ?_ ?_ <;> try rfl
       intro _
       refine { rd_le := ?_, cur_apps := hv.cur_apps, cur_le := ?_, mem_le := ?_, off_mem := ?_,
                view := ?_, pend0 := ?_, pendS := ?_, phase := ?_ }
@@ -791,7 +797,7 @@ theorem inv_catchUp {s s' : State} (h : Inv s) (hs : step s .catchUp = some s') 
 
 
 theorem inv_crashF {s : State} (h : Inv s) : Inv (crashF s) := by
-  refine Inv.of_durable_eq h ?_ ?_ ?_ ?_ ?_ <;> try rfl
+  refine Inv.of_durable_eq h ?_ ?_ ?_ ?_ ?_ ?_ ?_ <;> try rfl
   intro hup
   simp [crashF] at hup
 
@@ -874,15 +880,18 @@ theorem recovered_of_inv {s : State} (h : Inv s) : RecoveredExactlyOnce s := by
     rw [List.Nodup.count hnd]; simp [hmem]
 
 
-theorem inv_init' : Inv State.init := by
-  refine { wf := ?_, acked_in := ?_, files_ok := ?_, files_sorted := ?_, off_le := ?_, off_gap := ?_, vol := ?_ }
-  · simp [State.init]
-  · intro o ho; simp [State.init] at ho
-  · intro f hf; simp [State.init] at hf
-  · simp [State.init]
-  · simp [State.init]
+theorem inv_initCfg (src : Nat) : Inv (State.initCfg src src) := by
+  refine { wf := ?_, acked_in := ?_, files_ok := ?_, files_sorted := ?_, off_le := ?_, off_gap := ?_,
+           src_ok := rfl, vol := ?_ }
+  · simp [State.initCfg]
+  · intro o ho; simp [State.initCfg] at ho
+  · intro f hf; simp [State.initCfg] at hf
+  · simp [State.initCfg]
+  · simp [State.initCfg]
   · intro _; rfl
-  · intro hup; simp [State.init] at hup
+  · intro hup; simp [State.initCfg] at hup
+
+theorem inv_init' : Inv State.init := inv_initCfg 0
 
 theorem inv_stepA {s s' : State} {e : Event} (h : Inv s) (hs : stepA s e = some s') : Inv s' := by
   unfold stepA at hs
@@ -913,7 +922,7 @@ theorem inv_stepA {s s' : State} {e : Event} (h : Inv s) (hs : stepA s e = some 
 
 theorem reachableA_inv {s : State} (h : ReachableA s) : Inv s := by
   induction h with
-  | init => exact inv_init'
+  | init src => exact inv_initCfg src
   | step _ hs ih => exact inv_stepA ih hs
 
 theorem reachableA_runA {s : State} (h : ReachableA s) : ∀ (es : List Event) {s' : State},
@@ -955,6 +964,23 @@ theorem drain_wal (n : Nat) : ∀ (s : State), (drain n s).wal = s.wal := by
     · rename_i e _
       rw [ih, (ingestEntry_frame s e).1]
 
+theorem drain_cfg (n : Nat) : ∀ (s : State), (drain n s).tagSrc = s.tagSrc ∧ (drain n s).lookSrc = s.lookSrc := by
+  induction n with
+  | zero => intro s; exact ⟨rfl, rfl⟩
+  | succ n ih =>
+    intro s
+    unfold drain
+    split
+    · exact ⟨rfl, rfl⟩
+    · rename_i e _
+      obtain ⟨a, b⟩ := ih (ingestEntry s e)
+      have hc : (ingestEntry s e).tagSrc = s.tagSrc ∧ (ingestEntry s e).lookSrc = s.lookSrc := by
+        unfold ingestEntry
+        split
+        · exact ⟨rfl, rfl⟩
+        · split <;> exact ⟨rfl, rfl⟩
+      exact ⟨a.trans hc.1, b.trans hc.2⟩
+
 theorem step_wal {s s' : State} {e : Event} (hs : step s e = some s') :
     s'.wal = s.wal ∨ ∃ x, s'.wal = s.wal ++ [x] := by
   cases e <;> simp only [step] at hs
@@ -983,7 +1009,7 @@ theorem scalar_pend {s : State} (h : Inv s) (hsc : Scalar s.wal) (hup : s.up = t
 
 theorem reachable_scalar {s : State} (h : Reachable s) : Scalar s.wal → ReachableA s := by
   induction h with
-  | init => intro _; exact ReachableA.init
+  | init src => intro _; exact ReachableA.init src
   | @step s s' e _ hs ih =>
     intro hsc
     have hsc0 : Scalar s.wal := by
@@ -1015,13 +1041,13 @@ theorem closeEvents_run {s : State} (hup : s.up = true) (hph : s.phase = .idle) 
     ∃ s', runA s (closeEvents s) = some s' ∧ s'.up = false ∧ s'.wal = s.wal ∧ s'.acked = s.acked := by
   unfold closeEvents
   cases hm : s.mem.isEmpty
-  · refine ⟨{ wal := s.wal, acked := s.acked, offFile := s.offFile,
+  · refine ⟨{ wal := s.wal, acked := s.acked, offFile := s.offFile, tagSrc := s.tagSrc, lookSrc := s.lookSrc,
               files := { apps := s.cur.apps ++ s.mem, pos := s.memPos, complete := true } :: s.files }, ?_, rfl, rfl, rfl⟩
     simp [runA, stepA, step, midEntryFlush, hup, hph, hp, hm, crashF]
   · cases hc : s.offChanged
-    · refine ⟨{ wal := s.wal, acked := s.acked, offFile := s.offFile, files := s.files }, ?_, rfl, rfl, rfl⟩
+    · refine ⟨{ wal := s.wal, acked := s.acked, offFile := s.offFile, files := s.files, tagSrc := s.tagSrc, lookSrc := s.lookSrc }, ?_, rfl, rfl, rfl⟩
       simp [runA, stepA, step, midEntryFlush, hup, hp, crashF]
-    · refine ⟨{ wal := s.wal, acked := s.acked, offFile := s.memPos, files := s.files }, ?_, rfl, rfl, rfl⟩
+    · refine ⟨{ wal := s.wal, acked := s.acked, offFile := s.memPos, files := s.files, tagSrc := s.tagSrc, lookSrc := s.lookSrc }, ?_, rfl, rfl, rfl⟩
       simp [runA, stepA, step, midEntryFlush, hup, hph, hp, hm, hc, crashF]
 
 end Zeno.Crash
